@@ -56,6 +56,7 @@ func (sc *synonymIndexCache) loadOrCreate(fieldID uint16, mem []byte) (*vellum.F
 
 	sc.m.RUnlock()
 
+	verifYield("syncache.window")
 	sc.m.Lock()
 	defer sc.m.Unlock()
 
